@@ -154,7 +154,9 @@ impl SiteResolver {
     }
 
     fn site(&mut self, p: &PanicRec) -> Site {
-        if let Some(rel) = p.file.strip_prefix("/repo/") {
+        // (C06_REPO_ROOT: scratch copies of /repo used for mutation pilots)
+        let root = std::env::var("C06_REPO_ROOT").unwrap_or_else(|_| "/repo".to_string());
+        if let Some(rel) = p.file.strip_prefix(&format!("{}/", root.trim_end_matches('/'))) {
             let function = self.function_at(&p.file, p.line);
             Site { file: rel.to_string(), function }
         } else {
